@@ -257,4 +257,17 @@ theorem closeRing_of_closed (r : List Pt) (h : ringClosed r = true) : closeRing 
     · exact hc h.1
     · omega
 
+/-- trailing parameters that all have defaults and are not named by a keyword take their defaults -/
+theorem bindArgs_defaults (rest : List Param) (kw : List (String × String))
+    (h : ∀ q ∈ rest, q.dflt.isSome = true ∧ kw.lookup q.name = none) :
+    bindArgs rest [] kw = some (rest.map fun q => q.dflt.getD "") := by
+  induction rest with
+  | nil => rfl
+  | cons q qs ih =>
+    have hq := h q (by simp)
+    have ih' := ih (fun r hr => h r (by simp [hr]))
+    cases hd : q.dflt with
+    | none => simp [hd] at hq
+    | some v => simp [bindArgs, hq.2, hd, ih']
+
 end SE.Proofs.Lemmas.Bounds
